@@ -119,6 +119,15 @@ impl RandState<'_> {
         // inline records can need more stack than the guard's margin; consult it on every level.
         self.0.env.trace_type(ty)?;
         let old_config = self.0.push_state(&StateElem::Type(ty));
+        // Past the depth budget only the smallest alternatives are taken, so a type that has
+        // values bottoms out quickly. Still nesting this far beyond the budget means that it does
+        // not (or that the type is nested absurdly deep): give up instead of riding the stack
+        // guard, whose margin is too small for what a level may call (value parser, text faker).
+        if self.0.config.depth.is_some_and(|d| d < -(MAX_DEPTH as isize) * 2) {
+            return Err(Error::msg(format!(
+                "cannot generate a value of type {ty} within the configured depth; the type may have no values"
+            )));
+        }
         if let Some(vec) = &self.0.config.value {
             let v = u.choose(vec)?;
             let v: IDLValue = super::parse_idl_value(v)?;
